@@ -147,7 +147,19 @@ def run(ctx):
         try:
             with warnings.catch_warnings():
                 warnings.simplefilter('ignore')
-                c, info = fb.taylor(f, z0, **kw)
+                if hasattr(fb, 'Taylor') and rng.random() < 0.3:
+                    # one Taylor object, used before with another number of coefficients (and other options) at another point, then
+                    # reconfigured by attribute assignment: the result is that of the final configuration
+                    n0 = rng.choice([1, 4, 12, 30, 70])
+                    tobj = fb.Taylor(f, n=n0, r=kw.get('r', 0.0059) * rng.choice([1, 0.5]), num_extrap=rng.randint(1, 5),
+                                     step_ratio=rng.uniform(1.2, 3), full_output=True)
+                    tobj(z0 + 0.125)
+                    del flags[:], rad_inputs[:]
+                    tobj.n, tobj.r, tobj.num_extrap, tobj.step_ratio = n, kw.get('r', 0.0059), kw.get('num_extrap', 3), kw.get('step_ratio', 1.6)
+                    rep['object_used_before_with_n'] = n0
+                    c, info = tobj(z0)
+                else:
+                    c, info = fb.taylor(f, z0, **kw)
         except Exception as ex_:
             ctx.violation('taylor raised %r' % ex_, **rep)
             continue
@@ -198,9 +210,10 @@ def run(ctx):
             with warnings.catch_warnings():
                 warnings.simplefilter('ignore')
                 dv, dinfo = fb.derivative(f, z0, **kw)
-            fact = np.array([float(math.factorial(k_)) for k_ in range(m)])
-            if not (np.allclose(dv, np.asarray(c) * fact, rtol=1e-12, atol=0) and
-                    np.allclose(dinfo.error_estimate, np.asarray(info.error_estimate) * fact, rtol=1e-12, atol=0)):
+            mm = min(m, len(dv)) if 'object_used_before_with_n' in rep else m       # a reused object may return more than n + 1 coefficients
+            fact = np.array([float(math.factorial(k_)) for k_ in range(mm)])
+            if len(dv) < n + 1 or not (np.allclose(dv[:mm], np.asarray(c)[:mm] * fact, rtol=1e-12, atol=0) and
+                    np.allclose(dinfo.error_estimate[:mm], np.asarray(info.error_estimate)[:mm] * fact, rtol=1e-12, atol=0)):
                 ctx.violation('derivative() is not taylor() times k! (values or error estimates)', **rep)
     louts = run_driver(['tloop 30 %s' % ' '.join('1' if v else '0' for v in fl) for fl, _f in loop_jobs], 'C17t') if loop_jobs else []
     for (fl, failed), line in zip(loop_jobs, louts):
